@@ -844,15 +844,90 @@ class Fn:
                         IN[s] = new
                         changed = True
                     else:
-                        m = IN[s] & new
+                        m = self._merge_conds(IN[s], new)
                         if m != IN[s]:
                             IN[s] = m
                             changed = True
         self._conds = {b: (IN[b] if IN[b] is not None else frozenset()) for b in order}
         return self._conds
 
+    def _merge_conds(self, a, b):
+        """join of two must-hold sets: intersection, except that differing variant facts about
+        the same place are widened to a `variantin` fact (or-patterns, shared match arms)"""
+        common = a & b
+        if common == a or common == b:
+            # still try widening only when something was lost
+            if common == a and common == b:
+                return common
+
+        def vmap(cs):
+            out = {}
+            for c in cs:
+                if c[0] == "variant":
+                    out[(c[1], c[2])] = (frozenset([c[3]]), c)
+                elif c[0] == "variantin":
+                    out[(c[1], c[2])] = (c[3], c)
+            return out
+        va, vb = vmap(a - common), vmap(b - common)
+        extra = set()
+        for k in va.keys() & vb.keys():
+            names = va[k][0] | vb[k][0]
+            c = ("variantin", k[0], k[1], frozenset(names))
+            self._cond_deps[c] = (self._cond_deps.get(va[k][1], frozenset())
+                                  | self._cond_deps.get(vb[k][1], frozenset()))
+            extra.add(c)
+        return common | frozenset(extra)
+
     def conds_at(self, bb):
         return self.path_conds().get(bb, frozenset())
+
+    def variants_at(self, bb, place_s, adt=None):
+        """set of variants the place may be in at bb (from variant / variantin facts) or None"""
+        for c in self.conds_at(bb):
+            if c[0] == "variant" and c[1] == place_s and (adt is None or c[2] == adt):
+                return {c[3]}
+            if c[0] == "variantin" and c[1] == place_s and (adt is None or c[2] == adt):
+                return set(c[3])
+        return None
+
+    def back_slice_calls(self, op, depth=0, seen=None):
+        """names of all calls in the def-use back-slice of an operand (through temporaries,
+        fields, refs, casts, binops, aggregates and call arguments)"""
+        if seen is None:
+            seen = set()
+        out = set()
+        if depth > 14 or op is None:
+            return out
+        p = op_place(op)
+        if p is None:
+            return out
+        return self._slice_local(p["local"], depth, seen)
+
+    def _slice_local(self, l, depth, seen):
+        out = set()
+        if l in seen or depth > 14:
+            return out
+        seen.add(l)
+        for d in self.defs().get(l, []):
+            if d[0] == "call":
+                c = d[2]
+                out.add(c.name)
+                if c.callee:
+                    out.add(c.callee)
+                for a in c.args:
+                    out |= self.back_slice_calls(a, depth + 1, seen)
+            elif d[0] == "stmt":
+                rv = d[3]
+                for o in rvalue_operands(rv):
+                    out |= self.back_slice_calls(o, depth + 1, seen)
+                if rv["k"] in ("ref", "discriminant", "rawptr"):
+                    out |= self._slice_local(rv["place"]["local"], depth + 1, seen)
+            elif d[0] == "partial":
+                st = d[3]
+                if st.get("k") == "assign":
+                    for o in rvalue_operands(st["rv"]):
+                        out |= self.back_slice_calls(o, depth + 1, seen)
+        return out
 
     def variant_at(self, bb, place_s, adt=None):
         for c in self.conds_at(bb):
@@ -883,6 +958,28 @@ class Fn:
         for b, i, st in self.aggregates("lang::error::ErrorCode"):
             out.append((b, st["rv"]["variant"], st["span"]))
         return out
+
+    def field_stores(self, field):
+        """(bb, stmt, value-dict) for every assignment `<place>.field = v`; v is chased through
+        temporaries (so `self.state = State::X` shows the aggregate)"""
+        out = []
+        for b, i, st in self.assigns():
+            pl = st["place"]
+            if pl["proj"] and pl["proj"][-1]["k"] == "field" and pl["proj"][-1]["name"] == field:
+                rv = st["rv"]
+                if rv["k"] == "use":
+                    v = self.value_of_operand(rv["op"])
+                else:
+                    v = {"k": "rv", "rv": rv, "bb": b, "idx": i}
+                out.append((b, st, v))
+        return out
+
+    def stored_variant(self, v):
+        """if value v is an ADT aggregate return (adt, variant) else None"""
+        if v and v.get("k") == "rv" and v["rv"]["k"] == "aggregate" and \
+                v["rv"].get("agg") == "adt":
+            return v["rv"]["adt"], v["rv"]["variant"]
+        return None
 
     def field_writes(self, field, base_rx=None):
         """assignments whose destination ends in .field (direct writes)"""
